@@ -383,3 +383,26 @@ def retract_cases(seed):
                  f"do reg f0 100 ; try f1 {Fa} ; heal f1 ; reg f1 {Fb} ; trel t0 30000000", "main"]
             cases.append((f"reregister-{METHOD_NAME[m]}-{k}", L))
     return cases
+
+
+# ---------------------------------------------------------------- enumerated family: the kernel-timer (timerfd) state machine
+def ktimer_cases(seed, methods=METHODS):
+    """(C04/C07/C15) Enumerated: a far timer L is pending while a descriptor wakes the loop k times in a row (k = 2..8: below, at and
+    above the threshold at which the epoll-timerfd method arms its timer descriptor instead of passing a timeout); then a handler changes
+    the set of deadlines (earlier timer E added / later timer added / L unregistered / L re-registered with the same or another expiry /
+    nothing); then m more wake-ups; all timers must still fire on time on every method."""
+    rng = random.Random(seed * 9001 + 4)
+    cases = []
+    changes = ["trel t1 2000000", "trel t1 900000000", "?tunreg t0", "?tunreg t0 ; trel t0 60000000", "?tunreg t0 ; trel t0 8000000",
+               "trel t1 2000000 ; trel t2 70000000", "nop"]
+    for m in methods:
+        for k in (2, 4, 5, 6, 8):
+            for ci, ch in enumerate(changes):
+                more = rng.choice([0, 2, 6])
+                L = ([f"exclude {m}"] if m else []) + ["cfg waitlimit=40 cblimit=300", "obj fd f0 sock", "obj timer t0", "obj timer t1", "obj timer t2",
+                     "obj timer t9", "on f0.in * : rd f0", f"on f0.in {k} : {ch}", "on t9 1 : ?unreg f0 ; ?tunreg t0 ; ?tunreg t1 ; ?tunreg t2"]
+                for w in range(k + more):
+                    L.append(f"at {w} : wr f0 1")
+                L += ["do reg f0 100 ; trel t0 60000000 ; trel t9 2000000000", "main"]
+                cases.append((f"ktimer-{METHOD_NAME[m]}-k{k}-c{ci}", L))
+    return cases
